@@ -9,6 +9,25 @@ import (
 )
 
 // extName returns "pkgpath.Func" or "pkgpath.Type.Method" for a call to a function outside the repository.
+func qualifiedFuncName(fn *types.Func) string {
+	pkg := ""
+	if fn.Pkg() != nil {
+		pkg = fn.Pkg().Path()
+	}
+	sig := fn.Type().(*types.Signature)
+	if r := sig.Recv(); r != nil {
+		t := r.Type()
+		if p, ok := t.(*types.Pointer); ok {
+			t = p.Elem()
+		}
+		if n, ok := t.(*types.Named); ok {
+			return pkg + "." + n.Obj().Name() + "." + fn.Name()
+		}
+		return pkg + ".?." + fn.Name()
+	}
+	return pkg + "." + fn.Name()
+}
+
 func (e *Exec) extName(call *ast.CallExpr, ctx *Ctx) (string, *types.Func) {
 	info := e.info(ctx)
 	var id *ast.Ident
@@ -117,6 +136,55 @@ func (e *Exec) evalArgs(call *ast.CallExpr, st *State, ctx *Ctx) []string {
 	return out
 }
 
+// libraryModels: library calls whose effect depends on a callback are executed through a Go model kept in the
+// repository under the verif build tag (models_verif.go); the model is inlined like filterList / filterMap.
+var libraryModels = map[string]string{
+	"regexp.Regexp.ReplaceAllStringFunc": "verifReplaceAllStringFunc",
+}
+
+func (e *Exec) modelCallee(call *ast.CallExpr, info *types.Info) *FuncInfo {
+	sel, ok := call.Fun.(*ast.SelectorExpr)
+	if !ok {
+		return nil
+	}
+	fn, ok := info.Uses[sel.Sel].(*types.Func)
+	if !ok || fn.Pkg() == nil {
+		return nil
+	}
+	m, ok := libraryModels[qualifiedFuncName(fn)]
+	if !ok {
+		return nil
+	}
+	for _, fi := range e.w.Funcs {
+		if fi.Name == m && fi.Pkg.Types == e.fi.Pkg.Types {
+			return fi
+		}
+	}
+	return nil
+}
+
+// modelFor returns the model of a library call, the terms of the model parameters that do not come from the call's
+// arguments, and the mapping from the model's results to the call's results.
+func (e *Exec) modelFor(call *ast.CallExpr, st *State, ctx *Ctx) (*FuncInfo, map[int]string, func(*State, []string) []string) {
+	model := e.modelCallee(call, e.info(ctx))
+	if model == nil {
+		return nil, nil, nil
+	}
+	switch model.Name {
+	case "verifReplaceAllStringFunc":
+		// re.ReplaceAllStringFunc(src, repl): repl is applied to the matches of re in src, leftmost first; the result
+		// is src with the i-th match replaced by the i-th result (reMatches / reSubst: assumed contract of regexp)
+		re := e.eval(call.Fun.(*ast.SelectorExpr).X, st, ctx)
+		src := e.eval(call.Args[0], st, ctx)
+		e.note("regexp.ReplaceAllStringFunc(src, f) = reSubst(pattern, src, [f(m) for m in reMatches(pattern, src)]), f called once per match in order (assumed contract of regexp; model: models_verif.go)")
+		pat := "(rePat " + re + ")"
+		return model, map[int]string{0: "(Slice (reMatches " + pat + " " + src + "))"}, func(_ *State, vals []string) []string {
+			return []string{"(reSubst " + pat + " " + src + " (sitems " + vals[0] + "))"}
+		}
+	}
+	return nil, nil, nil
+}
+
 func (e *Exec) evalExternal(call *ast.CallExpr, st *State, ctx *Ctx) []string {
 	info := e.info(ctx)
 	name, fn := e.extName(call, ctx)
@@ -154,6 +222,8 @@ func (e *Exec) evalExternal(call *ast.CallExpr, st *State, ctx *Ctx) []string {
 	case "strings.TrimSuffix":
 		s, p := arg(0), arg(1)
 		return []string{"(trimSuffix " + s + " " + p + ")"}
+	case "strings.Trim":
+		return []string{"(strTrim " + arg(0) + " " + arg(1) + ")"}
 	case "strings.ReplaceAll":
 		return []string{"(str.replace_all " + arg(0) + " " + arg(1) + " " + arg(2) + ")"}
 	case "strings.Split":
